@@ -85,4 +85,20 @@ SPECIAL = [
     "4k3/8/8/p1p1p1p1/PpPpPpPp/1P1P1P1P/8/4K3 w - - 0 1",      # blocked pawns (tiny tree)
 ]
 
-ALL = PERFT + ENDGAMES + EP + CASTLING + PROMO + SPECIAL
+# a SECOND rook of the side on the a- or h-file while the castling right is still held (a lifted or promoted rook):
+# its moves must not cost the right; only the home rook's do
+EDGE_ROOKS = [
+    "r3k2r/8/8/8/8/R7/8/R3K2R w KQkq - 0 1", "r3k2r/8/8/8/8/7R/8/R3K2R w KQkq - 0 1",
+    "r3k2r/8/r7/8/8/8/8/R3K2R b KQkq - 0 1", "r3k2r/8/7r/8/8/8/8/R3K2R b KQkq - 0 1",
+    "r3k2r/p6p/8/8/R6R/8/P6P/R3K2R w KQkq - 0 1", "r3k2r/p6p/8/r6r/8/8/P6P/R3K2R b KQkq - 0 1",
+    "4k3/8/8/8/8/R7/8/R3K3 w Q - 0 1", "4k2r/8/7r/8/8/8/8/4K3 b k - 0 1",
+]
+# a piece attacking along a whole line of the board (seven squares away): corner to corner, edge to edge
+LONG_LINES = [
+    "7b/8/8/8/8/8/8/K3k3 w - - 0 1", "b7/8/8/8/8/8/8/3k3K w - - 0 1", "K3k3/8/8/8/8/8/8/7b w - - 0 1", "3k3K/8/8/8/8/8/8/b7 w - - 0 1",
+    "7B/8/8/8/8/8/8/k3K3 b - - 0 1", "B7/8/8/8/8/8/8/3K3k b - - 0 1", "k3K3/8/8/8/8/8/8/7B b - - 0 1", "3K3k/8/8/8/8/8/8/B7 b - - 0 1",
+    "r7/8/8/8/8/8/8/K3k3 w - - 0 1", "K6r/8/8/8/8/8/8/4k3 w - - 0 1", "k6R/8/8/8/8/8/8/4K3 b - - 0 1", "R7/8/8/8/8/8/8/k3K3 b - - 0 1",
+    "7q/8/8/8/3P4/1k6/3n4/K7 b - - 0 1", "7Q/8/8/8/3p4/1K6/3N4/k7 w - - 0 1", "q7/8/8/8/4P3/6k1/4n3/7K b - - 0 1",
+    "7B/8/8/8/3P4/1K6/3N4/k7 w - - 0 1", "7b/8/8/8/3p4/1k6/3n4/K7 b - - 0 1",
+]
+ALL = PERFT + ENDGAMES + EP + CASTLING + PROMO + SPECIAL + EDGE_ROOKS + LONG_LINES
